@@ -220,7 +220,9 @@ pub fn argv_os(prog: &str, argv: &[Vec<u8>]) -> Vec<std::ffi::OsString> {
 
 /// Parse with a fresh clone of `cmd` under program name `prog`.
 pub fn parse(cmd: &clap::Command, spec: &CmdSpec, argv: &[Vec<u8>]) -> Outcome {
-    let full: Vec<std::ffi::OsString> = if spec.has(crate::spec::Setting::NoBinaryName) {
+    let full: Vec<std::ffi::OsString> = if spec.has(crate::spec::Setting::NoBinaryName)
+        || spec.has(crate::spec::Setting::Multicall)
+    {
         argv.iter().map(|a| mccore::os(a)).collect()
     } else {
         argv_os("prog", argv)
